@@ -194,6 +194,11 @@ def build_srf(spec, ctx=None, fns=None, route=None):
                   trend=trend, generator=kind, seed=spec["seed"], **g)
 
 
+def rng_choice_nan(op):
+    """Two spellings of 'keep the seed' (explicit nan / default), picked from the op itself."""
+    return len(str(op)) % 2 == 0
+
+
 def read_model(model):
     """Read the public parameter state back into a spec (values as the model reports them)."""
     return {
@@ -392,6 +397,9 @@ class Machine:
                 args["seed"] = rng.choice(SEEDS)
             return {"op": "gen_set", "param": "update", "value": args,
                     "obj": rng.choice(["same", "distinct", "np"])}
+        if p == "reset_seed" and rng.random() < 0.35:
+            # documented default: keep the seed, recalculate everything from it
+            return {"op": "gen_set", "param": p, "value": None, "keep": True, "obj": "same"}
         if p in ("seed_attr", "reset_seed", "update_seed"):
             v = self.spec["seed"] if rng.random() < 0.3 else rng.choice(SEEDS)
             return {"op": "gen_set", "param": p, "value": v,
@@ -434,7 +442,8 @@ class Machine:
             return {"fault": f, "kw": rng.choice([{"N": 300}, {"N": 200, "h": 0.003}])}
         if f == "rejected_seed" and self.spec["gen"]["kind"] == "Fourier" and rng.random() < 0.5:
             bad = [rng.choice([4, 6, 8, 10]) for _ in range(self.dim)]
-            bad[rng.randrange(self.dim)] = rng.choice([3, 5, 7])
+            # odd counts and counts that are not whole numbers (8.5 has an even integer part)
+            bad[rng.randrange(self.dim)] = rng.choice([3, 5, 7, 7, 4.5, 8.25, 6.5])
             via = rng.choice(["setter", "update", "update_with_model", "update_with_period"])
             op = {"fault": "rejected_mode_no", "bad": bad, "via": via}
             if via == "update_with_model" and self.dim > 1:
@@ -608,6 +617,11 @@ class Machine:
             g = s.srf.generator
             if p == "seed_attr":
                 g.seed = self._seed_obj(s, v, op["obj"])
+            elif p == "reset_seed" and op.get("keep"):
+                if rng_choice_nan(op):
+                    g.reset_seed(np.nan)
+                else:
+                    g.reset_seed()
             elif p == "reset_seed":
                 g.reset_seed(self._seed_obj(s, v, op["obj"]))
             elif p == "update_seed":
@@ -629,7 +643,10 @@ class Machine:
                     g.period = v
             elif p == "mean_u":
                 g.mean_u = v
-        if p in ("seed_attr", "reset_seed", "update_seed"):
+        if p == "reset_seed" and op.get("keep"):
+            self.rng_fresh = True
+            self.ctx.probe("gen.reset_seed_keep")
+        elif p in ("seed_attr", "reset_seed", "update_seed"):
             if p == "reset_seed" or v != self.spec["seed"]:
                 self.rng_fresh = True
             self.spec["seed"] = v
